@@ -201,6 +201,13 @@ func caseCoq(c *Case, all []Obs) string {
 	if c.InErr != nil && (c.Par == "collect" || c.Par == "transform") {
 		inErr = lib.CoqSome(c.InErr.coq())
 	}
+	if c.Resume {
+		var os []string
+		for i := range all {
+			os = append(os, "\n  "+all[i].coq())
+		}
+		return lib.CoqApp("CaseR", "\n  "+lib.CoqList(f.graphs), parCoq(c.Par), lib.CoqBool(c.CancelBefore), inErr, lib.CoqList(os))
+	}
 	if len(all) == 1 {
 		return lib.CoqApp("Case", "\n  "+lib.CoqList(f.graphs), parCoq(c.Par), lib.CoqBool(c.CancelBefore), inErr, "\n  "+all[0].coq())
 	}
